@@ -9,33 +9,58 @@
    (check action), whose plugin is registered, whose plan context is not cancelled while it runs, and whose
    plugin's retry policy sets no MaxAttempts (the harness policy: 100 us initial, factor 1.1).
 
-   The plugin is scripted: [script k] is what its k-th invocation (k = 0, 1, ...) of this run does:
+   The plugin is scripted: [script k] is what its k-th invocation (k = 0, 1, ...) of this run does.  Execute
+   returns a PAIR (response, *plugins.Error); every combination is an outcome:
 
-     OOk         returns a response of the declared type (tagged k) and no error
-     OErr        returns a non-permanent *plugins.Error (tagged k), no response
-     OPerm       returns a permanent *plugins.Error (tagged k), no response
-     OWrongType  returns a response whose Go type is not the plugin's declared Response() type, no error
+     ORet rs er  returns in time;  rs : PNil (nil response) | PGood (a value of the declared response type,
+                 tagged k) | PBad (a value of any other Go type);  er : PNoErr (nil) | PTrans (a non-permanent
+                 error, tagged k) | PPerm (a permanent error, tagged k)
      OOverrun    is still running when the action's Timeout expires; it honours ctx.Done() and returns
                  (an error, tagged k) only afterwards
+
+   The five classical outcomes are notations: OOk = ORet PGood PNoErr, OErr = ORet PNil PTrans,
+   OPerm = ORet PNil PPerm, OWrongType = ORet PBad PNoErr.
 
    No proofs in this file.  *)
 From Coq Require Import List Arith Bool.
 From Coercion.Base Require Import Plan.
 Import ListNotations.
 
-Inductive outcome := OOk | OErr | OPerm | OWrongType | OOverrun.
+Inductive presp := PNil | PGood | PBad.
+Inductive perr := PNoErr | PTrans | PPerm.
+Inductive outcome := OOverrun | ORet (rs : presp) (er : perr).
+
+Notation OOk := (ORet PGood PNoErr).
+Notation OErr := (ORet PNil PTrans).
+Notation OPerm := (ORet PNil PPerm).
+Notation OWrongType := (ORet PBad PNoErr).
+
+Definition presp_eqb (a b : presp) : bool :=
+  match a, b with PNil, PNil | PGood, PGood | PBad, PBad => true | _, _ => false end.
+Definition perr_eqb (a b : perr) : bool :=
+  match a, b with PNoErr, PNoErr | PTrans, PTrans | PPerm, PPerm => true | _, _ => false end.
 
 Definition outcome_eqb (a b : outcome) : bool :=
   match a, b with
-  | OOk, OOk | OErr, OErr | OPerm, OPerm | OWrongType, OWrongType | OOverrun, OOverrun => true
+  | OOverrun, OOverrun => true
+  | ORet r e, ORet r' e' => presp_eqb r r' && perr_eqb e e'
   | _, _ => false
   end.
 
-(* an outcome after which the action must not be invoked again *)
+(* an outcome after which the action must not be invoked again: a wrong-typed response (whatever the error),
+   otherwise no error (success) or a permanent error *)
 Definition is_final (o : outcome) : bool :=
-  match o with OOk | OPerm | OWrongType => true | OErr | OOverrun => false end.
+  match o with
+  | OOverrun => false
+  | ORet PBad _ => true
+  | ORet _ PNoErr => true
+  | ORet _ PPerm => true
+  | ORet _ PTrans => false
+  end.
 
-Definition is_ok (o : outcome) : bool := match o with OOk => true | _ => false end.
+(* the invocation succeeded: no error and the response, if any, has the declared type *)
+Definition is_ok (o : outcome) : bool :=
+  match o with ORet PNil PNoErr | ORet PGood PNoErr => true | _ => false end.
 
 (* ---- observable events of one action (shared with ActionAuto.v) ---------------------------------------
    Writes are logged by a vault wrapper AFTER UpdateAction returned; AStart / AEnd by the plugin on entry and
@@ -69,11 +94,10 @@ Record plug_ret := { pr_resp : resp_obs; pr_err : err_obs }.
 
 Definition plugin_execute (k : nat) (o : outcome) : plug_ret :=
   match o with
-  | OOk        => {| pr_resp := RGood k; pr_err := ENone |}
-  | OErr       => {| pr_resp := RNone;   pr_err := EPlug k false |}
-  | OPerm      => {| pr_resp := RNone;   pr_err := EPlug k true |}
-  | OWrongType => {| pr_resp := RBad;    pr_err := ENone |}
-  | OOverrun   => {| pr_resp := RNone;   pr_err := EPlug k false |}   (* returned after the deadline *)
+  | OOverrun => {| pr_resp := RNone; pr_err := EPlug k false |}   (* returned after the deadline *)
+  | ORet rs er =>
+      {| pr_resp := match rs with PNil => RNone | PGood => RGood k | PBad => RBad end;
+         pr_err := match er with PNoErr => ENone | PTrans => EPlug k false | PPerm => EPlug k true end |}
   end.
 
 Definition overruns (o : outcome) : bool := match o with OOverrun => true | _ => false end.
